@@ -18,6 +18,8 @@ type ProcCheck struct {
 	Level        string
 	Assumptions  []string
 	Harvest      bool // also validate the traces harvested from the repository's own test-suite (E6)
+	Storms       []string // scenarios also run as uncontrolled storms of StormN processes
+	StormN       int
 }
 
 func procCfg(dev, scenarios string, crashes int, emit string, invs []string) string {
@@ -88,6 +90,19 @@ func (c *ProcCheck) collect(e *Env, cov map[string]any) ([]*Obs, error) {
 	if err != nil {
 		return nil, err
 	}
+	if len(c.Storms) > 0 {
+		rounds := 6
+		if thorough {
+			rounds = 60
+		}
+		so, err := e.storms(table, c.Storms, rounds, c.StormN, c.Only, e.Seed)
+		if err != nil {
+			return nil, err
+		}
+		obs = append(obs, so...)
+		cov["e3_storms"] = map[string]any{"scenarios": c.Storms, "processes_per_storm": c.StormN, "storms": len(so),
+			"note": "uncontrolled schedules (all processes released at once); judged by the same linearisation clauses"}
+	}
 	cov["e3"] = map[string]any{"asis_states": len(states), "state_step_pairs": total, "realised": len(obs),
 		"exhaustive": len(obs) == total, "wall_s": time.Since(t0).Seconds(), "asis_generated": gen.Generated}
 
@@ -150,13 +165,13 @@ func init() {
 		return &ProcCheck{Prop: "C01", Scenarios: "ClaimScenarios", MaxCrashes: 0,
 			IdealInvs:    []string{"Serializable", "NeverBricked"},
 			Only:         []string{"C01_serial", "C01_no_double", "C01_outcomes", "C01_winner_holds", "C01_nowait"},
-			MaxRunsQuick: 1500}
+			MaxRunsQuick: 1500, Storms: []string{"claim3-two", "claim2-epic", "claim-reopen"}, StormN: 5}
 	}
 	registry["C02"] = func() Check {
 		return &ProcCheck{Prop: "C02", Scenarios: "PairScenarios", MaxCrashes: 0,
 			IdealInvs:    []string{"Serializable", "NeverBricked"},
 			Only:         []string{"C02_serial", "C02_wholelines", "C02_nowait", "C02_busy_fast", "C07_final"},
-			MaxRunsQuick: 2000, Harvest: true}
+			MaxRunsQuick: 2000, Harvest: true, Storms: []string{"set-claim", "seq-seqrev", "prune-reopen", "compact-claim", "plan-new", "new-new"}, StormN: 4}
 	}
 	registry["C13"] = func() Check {
 		return &ProcCheck{Prop: "C13", Scenarios: "ReaderScenarios", MaxCrashes: 1,
